@@ -310,7 +310,13 @@ pub fn build(cfg: &NetCfg, params: Option<&[P]>) -> Result<Network, String> {
             net.connect(*from, *to);
         }
         for (outof, into, iters, inskips) in cfg.loops.iter() {
-            net.loopback(*outof, *into, *iters, std::sync::Arc::new(|x| 1.0 / x), *inskips);
+            let scale: std::sync::Arc<dyn Fn(f32) -> f32 + Send + Sync> = match cfg.loopscale {
+                1 => std::sync::Arc::new(|_| 1.0),
+                2 => std::sync::Arc::new(|x| 1.0 / x.sqrt()),
+                3 => std::sync::Arc::new(|x| x),
+                _ => std::sync::Arc::new(|x| 1.0 / x),
+            };
+            net.loopback(*outof, *into, *iters, scale, *inskips);
         }
         if late {
             net.set_accumulation(lib_acc(cfg.skipacc), lib_acc(cfg.loopacc));
